@@ -11,7 +11,7 @@ def key_bytes(n=16):
     return [("key%02d" % i).encode() for i in range(n)]
 
 
-def run_db_batch(binary, name, cases, gates=False, seed=1, timeout=300, keys=None, env=None, disk=False):
+def run_db_batch(binary, name, cases, gates=False, seed=1, timeout=300, keys=None, env=None, disk=False, dirstyle=""):
     """cases: list of step lists. Returns (trace_path, events). A crash / hang of the driver is an observable outcome of the code
     under test (background panic, dead-locked flusher): the trace written so far gets a final bgfail line."""
     work = common.scratch("db-" + name)
@@ -22,7 +22,7 @@ def run_db_batch(binary, name, cases, gates=False, seed=1, timeout=300, keys=Non
         # O_DIRECT is refused by tmpfs: sessions with the direct-I/O WAL need a block-device file system (removed below)
         import tempfile
         ddir = tempfile.mkdtemp(prefix="verif-dio-", dir=os.environ.get("VERIF_DISK_SCRATCH", "/var/tmp"))
-    inp = {"keys": [k.hex() for k in keys], "dir": ddir, "cases": [{"steps": c} for c in cases], "gates": gates, "seed": seed}
+    inp = {"keys": [k.hex() for k in keys], "dir": ddir, "cases": [{"steps": c} for c in cases], "gates": gates, "seed": seed, "dirstyle": dirstyle}
     in_path = trace + ".in.json"
     with open(in_path, "w") as f:
         json.dump(inp, f)
